@@ -403,6 +403,12 @@ void execute_decode(const Plan& plan) {
         switch (op.kind) {
           case kCallStub: {
             int form = int(op.a[2] % 5);   // 0,1 call  2,3 jmp  4 jcc
+            // Some of the branches are emitted into the second section: its offset is unknown until flatten(), so even with
+            // a known base the assembler cannot resolve the displacement itself and has to leave it to the relocation.
+            bool elsewhere = data_section && (op.a[3] / 24) % 3 == 0;
+            if (elsewhere) { a.section(data_section); sim::count("c04.probe.absolute_branch_in_second_section"); }
+            bool known_here = known && !elsewhere;
+            uint32_t site_section = a.current_section()->section_id();
             size_t before = a.offset();
             uint64_t t;
             static const int64_t kDeltas[] = {-0x1000, -64, -7, -6, -5, -2, -1, 0, 1, 2, 5, 6, 7, 64, 0x1000};
@@ -422,13 +428,14 @@ void execute_decode(const Plan& plan) {
             else if (prefix >= 2 && form == 4) { xa.add_encoding_options(EncodingOptions::kPredictedJumps); if (prefix == 2) xa.taken(); else xa.not_taken(); sim::count("c04.probe.branch_with_hint_prefix"); }
             Error er = form < 2 ? xa.call(Imm(t)) : form < 4 ? xa.jmp(Imm(t)) : xa.jz(Imm(t));
             xa.clear_encoding_options(EncodingOptions::kPredictedJumps);
-            if (er == Error::kOk) { sites.push_back(Site{0, 0, before, a.offset(), t, Label(), form == 4}); if (form == 4 && target == 1 && !known) unreachable_jcc_possible = true; }
+            if (er == Error::kOk) { sites.push_back(Site{0, site_section, before, a.offset(), t, Label(), form == 4}); if (form == 4 && target == 1 && !known_here) unreachable_jcc_possible = true; }
             else {
               // only a conditional jump assembled with a known base may be refused, and only when its target is out of reach
-              bool legit = form == 4 && target == 1 && known && !reachable_rel32(base + before + 6 + prefix_len, t);
+              bool legit = form == 4 && target == 1 && known_here && !reachable_rel32(base + before + 6 + prefix_len, t);
               SIM_CHECK(legit, "c04:reachable-target-refused", "%s onto %#llx at offset %zu was refused with error %u (base %s)", form < 2 ? "call" : form < 4 ? "jmp" : "jz", (unsigned long long)t, before, unsigned(er), known ? "known" : "unknown");
               sim::count("c04.probe.unreachable_refused_at_emit");
             }
+            if (elsewhere) a.section(code.text_section());
             break;
           }
           case kLocalTable: { Label l = a.new_label(); labels.push_back(l); embed_site(l); break; }
@@ -462,13 +469,18 @@ void execute_decode(const Plan& plan) {
           case kCallStub: {
             // b / bl / adr with an ABSOLUTE target given as an immediate: PC-relative fields that depend on the base
             int form = int(op.a[2] % 4);   // 0 b, 1 bl, 2 adr, 3 adrp (a 4 KiB page, relative to the page of the instruction)
+            bool elsewhere = data_section && (op.a[3] / 24) % 3 == 0;   // in the second section (offset unknown while assembling)
+            if (elsewhere) { a.section(data_section); a.align(AlignMode::kZero, 4); sim::count("c04.probe.absolute_branch_in_second_section"); }
+            uint32_t site_section = a.current_section()->section_id();
             size_t before = a.offset();
             int64_t reach = form == 2 ? (1 << 19) : form == 3 ? (1 << 19) - 1 /* pages; the relocator limits every pc-relative value to +-2 GiB, half of what adrp could reach */ : (1 << 26);
+            if (elsewhere) reach /= 2;   // the section offset is added to the distance
             uint64_t t = base + uint64_t(before) + uint64_t((int64_t(uint64_t(op.a[0]) % uint64_t(2 * reach)) - reach) & ~int64_t(form == 2 ? 0 : 3));
             if (form == 3) t = ((base + uint64_t(before)) & ~uint64_t(4095)) + (uint64_t(int64_t(uint64_t(op.a[0]) % uint64_t(2 * reach)) - reach) << 12);
             Error er = form == 0 ? aa.b(Imm(t)) : form == 1 ? aa.bl(Imm(t)) : form == 2 ? aa.adr(a64::x(1), Imm(t)) : aa.adrp(a64::x(1), Imm(t));
-            if (er == Error::kOk) sites.push_back(Site{3 + form, 0, before, a.offset(), t, Label(), false});
+            if (er == Error::kOk) sites.push_back(Site{3 + form, site_section, before, a.offset(), t, Label(), false});
             else SIM_CHECK(false, "c04:reachable-target-refused", "a64 %s onto %#llx (within reach of base %#llx) was refused with error %u", form == 0 ? "b" : form == 1 ? "bl" : form == 2 ? "adr" : "adrp", (unsigned long long)t, (unsigned long long)base, unsigned(er));
+            if (elsewhere) a.section(code.text_section());
             break;
           }
           default: nops(size_t(op.a[0] % 9)); break;
@@ -578,7 +590,7 @@ void execute_decode(const Plan& plan) {
       // a rel8-only jump whose label ended up out of reach (resolve_cross_section_fixups() reports it; within one section it is
       // bind() that does)
       for (auto& s : sites) if (s.kind == 7 && code.is_label_bound(s.label)) { int64_t dist = int64_t(code.label_offset_from_base(s.label)) - int64_t(code.section_by_id(s.section_id)->offset() + s.end); if (dist < -128 || dist > 127) { legit = true; sim::count("c04.probe.decode_rel8_out_of_reach_reported"); } }
-      if (unreachable_jcc_possible) for (auto& s : sites) if (s.kind == 0 && s.jcc && !reachable_rel32(base + s.end, s.target)) legit = true;
+      if (unreachable_jcc_possible) for (auto& s : sites) if (s.kind == 0 && s.jcc && !reachable_rel32(base + code.section_by_id(s.section_id)->offset() + s.end, s.target)) legit = true;
       // ... or a 4-byte embedded address on a 64-bit target whose label ends up at or above 4 GiB
       if (target != 0) for (auto& s : sites) if (s.kind == 1 && s.end - s.start == 4 && ((base + code.label_offset_from_base(s.label)) > 0xffffffffull || base + code.label_offset_from_base(s.label) < base)) { legit = true; sim::count("c04.probe.decode_abs32_field_unreachable_reported"); }
       // (x86-32: an image that would extend past the end of the 4 GiB address space cannot be placed there at all.)
